@@ -27,6 +27,15 @@ Explains(e) ==
      \/ e.op = "tzdays"     /\ Res(e.r, TzAddDays(e.u, e.off, J(e.k)), e.off)
      \/ e.op = "tzmonths"   /\ Res(e.r, TzAddMonths(e.u, e.off, J(e.k)), e.off)
      \/ e.op = "with_time"  /\ Res(e.r, TzWithTime(e.u, e.off, e.t), e.off)
+     \* FixedOffset: offsets strictly within a day, east positive
+     \/ e.op = "offset"     /\ LET ok == e.arg > -86400 /\ e.arg < 86400 IN
+                               /\ e.east = (IF ok THEN <<e.arg, -e.arg>> ELSE <<>>)           \* <<local_minus_utc, utc_minus_local>>
+                               /\ e.west = (IF ok THEN <<-e.arg, e.arg>> ELSE <<>>)
+     \* MappedLocalTime combinators on a none / single / ambiguous value (kind, a, b)
+     \/ e.op = "mlt"        /\ e.single = (IF e.k = "single" THEN <<e.a>> ELSE <<>>)
+                            /\ e.earliest = (IF e.k = "none" THEN <<>> ELSE <<e.a>>)
+                            /\ e.latest = (IF e.k = "none" THEN <<>> ELSE IF e.k = "single" THEN <<e.a>> ELSE <<e.b>>)
+                            /\ e.mapped = (IF e.k = "none" THEN <<>> ELSE IF e.k = "single" THEN <<e.a + 1>> ELSE <<e.a + 1, e.b + 1>>)
      \* sessions
      \/ e.op = "s.set"      /\ TRUE
      \/ e.op = "s.tzwith"   /\ Res(e.r, TzWith(e.f, reg, e.off, J(e.v)), e.off)
